@@ -160,7 +160,7 @@ def run(ctx):
     rng = ctx.rng
     dspecs = cases.gen_pool_specs(rng, ctx.scale(12, 30))
     dspecs.append({"kind": "combined", "alpha": 1.0, "beta": 1.0, "delta": 0.5, "pos": None, "cat": None})
-    n_cases = ctx.scale(450, 3500)
+    n_cases = ctx.scale(450, 12000)
     for i in range(n_cases):
         if ctx.out_of_time():
             break
